@@ -19,8 +19,14 @@ pub struct ServerCase {
     pub bursts: Vec<usize>,
     /// requests each connection sends (pipelined) before waiting
     pub reqs_per_conn: usize,
-    /// application threads calling recv()
+    /// application threads; `apis[i % len]` says how thread i receives: 0 recv, 1 recv_timeout(50 ms)
+    /// in a loop, 2 try_recv polling, 3 the incoming_requests iterator
     pub handlers: usize,
+    #[serde(default)]
+    pub apis: Vec<u8>,
+    /// connections that send half a request head and then stall (they stay open to the end)
+    #[serde(default)]
+    pub stalled: usize,
     /// virtual idle time after each burst, in ms (0 = none)
     pub idle_ms: u64,
     /// 0: drop the server at the end with nothing outstanding; 1: drop it while a request is
@@ -38,8 +44,9 @@ pub fn server_strategy(max_burst: usize, for_c20: bool) -> BoxedStrategy<ServerC
         if for_c20 { prop_oneof![1 => Just(0u64), 3 => Just(6000u64), 1 => Just(5200u64)].boxed() } else { prop_oneof![3 => Just(0u64), 1 => Just(6000u64)].boxed() },
         0u8..3,
         tape_strategy(300),
+        (proptest::collection::vec(prop_oneof![3 => Just(0u8), 1 => Just(1u8), 1 => Just(2u8), 1 => Just(3u8)], 1..3), prop_oneof![3 => Just(0usize), 1 => 1usize..4]),
     )
-        .prop_map(|(bursts, reqs_per_conn, handlers, idle_ms, drop_mode, tape)| ServerCase { bursts, reqs_per_conn, handlers, idle_ms, drop_mode, tape })
+        .prop_map(|(bursts, reqs_per_conn, handlers, idle_ms, drop_mode, tape, (apis, stalled))| ServerCase { bursts, reqs_per_conn, handlers, apis, stalled: if idle_ms > 0 { 0 } else { stalled }, idle_ms, drop_mode, tape })
         .boxed()
 }
 
@@ -101,16 +108,76 @@ pub fn run_server_case(prop: &'static str, case: &ServerCase) -> Verdict {
             }
         };
         // application threads
+        let stop = Arc::new(AtomicBool::new(false));
+        let hdone = Arc::new(Gate { st: rt::sync::Mutex::new(GateSt::default()), cv: rt::sync::Condvar::new() });
         let mut handlers = vec![];
-        for _ in 0..c.handlers {
+        for hi in 0..c.handlers {
             let s = server.clone();
+            let api = if c.apis.is_empty() { 0 } else { c.apis[hi % c.apis.len()] };
+            let stop = stop.clone();
+            let hdone = hdone.clone();
             handlers.push(shuttle::thread::spawn(move || {
-                while let Ok(rq) = s.recv() {
+                let answer = |rq: tiny_http::Request| {
                     let rid = rq.url().trim_start_matches("/r").to_string();
                     let resp = Response::from_string("ok").with_header(tiny_http::Header::from_bytes(&b"X-Rid"[..], rid.as_bytes()).unwrap());
                     let _ = rq.respond(resp);
+                };
+                match api {
+                    1 => loop {
+                        match s.recv_timeout(Duration::from_millis(50)) {
+                            Ok(Some(rq)) => answer(rq),
+                            Ok(None) => {
+                                if stop.load(Ordering::SeqCst) {
+                                    break;
+                                }
+                            }
+                            Err(_) => break,
+                        }
+                    },
+                    2 => {
+                        let mut empty = 0;
+                        loop {
+                            let r = if empty >= 30 { s.recv().map(Some) } else { s.try_recv() };
+                            match r {
+                                Ok(Some(rq)) => {
+                                    empty = 0;
+                                    answer(rq)
+                                }
+                                Ok(None) => {
+                                    if stop.load(Ordering::SeqCst) {
+                                        break;
+                                    }
+                                    empty += 1;
+                                    rt::thread::yield_now();
+                                }
+                                Err(_) => break,
+                            }
+                        }
+                    }
+                    3 => {
+                        for rq in s.incoming_requests() {
+                            answer(rq);
+                        }
+                    }
+                    _ => {
+                        while let Ok(rq) = s.recv() {
+                            answer(rq);
+                        }
+                    }
                 }
+                let mut st = hdone.st.lock().unwrap();
+                st.have_response += 1;
+                hdone.cv.notify_all();
             }));
+        }
+        // connections that stall in the middle of a request head: they occupy a worker each and
+        // must not hold anybody else up
+        let mut stalled_clients = vec![];
+        for _ in 0..c.stalled {
+            if let Ok(cl) = listener.connect() {
+                cl.send(b"GET /stalled HTTP/1.1\r\nHos");
+                stalled_clients.push(cl);
+            }
         }
         let mut next_id = 0usize;
         for (bi, b) in c.bursts.iter().copied().enumerate() {
@@ -193,12 +260,24 @@ pub fn run_server_case(prop: &'static str, case: &ServerCase) -> Verdict {
             }
         }
         ph.store(30, Ordering::SeqCst);
-        // release the application threads: one unblock each
-        for _ in 0..c.handlers {
+        // release the application threads: each unblock() releases exactly one receive call
+        stop.store(true, Ordering::SeqCst);
+        loop {
+            let d = hdone.st.lock().unwrap().have_response;
+            if d >= c.handlers {
+                break;
+            }
             server.unblock();
+            let mut st = hdone.st.lock().unwrap();
+            while st.have_response == d {
+                st = hdone.cv.wait(st).unwrap();
+            }
         }
         for h in handlers {
             let _ = h.join();
+        }
+        for cl in &stalled_clients {
+            cl.close_write();
         }
         ph.store(31, Ordering::SeqCst);
         let server = match Arc::try_unwrap(server) {
@@ -213,7 +292,13 @@ pub fn run_server_case(prop: &'static str, case: &ServerCase) -> Verdict {
             let cl = listener.connect().expect("connect before drop");
             let wire: &[u8] = if c.drop_mode == 2 { b"GET /r9999 HTTP/1.1\r\nHost: h\r\n\r\nGET /r9998 HTTP/1.1\r\nHost: h\r\n\r\n" } else { b"GET /r9999 HTTP/1.1\r\nHost: h\r\n\r\n" };
             cl.send(wire);
-            let rq = server.recv();
+            // (unblock tokens left over from releasing the application threads may come first)
+            let mut rq = server.recv();
+            let mut tries = 0;
+            while rq.is_err() && tries < c.handlers + 2 {
+                rq = server.recv();
+                tries += 1;
+            }
             if c.drop_mode == 2 {
                 // let the connection read (and queue) the second request before the drop
                 let mut spins = 0;
@@ -292,6 +377,8 @@ pub fn run_server_case(prop: &'static str, case: &ServerCase) -> Verdict {
         .class(format!("max-burst={}", max_burst))
         .class(format!("drop-mode={}", case.drop_mode))
         .class_if(o.idle_checks > 0, "idle-phase-checked")
+        .class_if(case.stalled > 0, "stalled-connections")
+        .class_if(case.apis.iter().any(|a| *a != 0), "mixed-receive-apis")
         .class_if(o.lib_threads_spawned > 5, "extra-workers-spawned")
         .class_if(res.stats.preemptions > 0, "preempted")
         .class_if(matches!(res.end, ExecEnd::Deadlock { .. }), "teardown-leftover");
